@@ -205,6 +205,22 @@ struct Acc {
   runs: u64,
 }
 
+/// Runs a scenario, turning a panic that escapes the engine into a violation (repository code) or a harness error.
+pub fn run_safely<E: Engine>(engine: &E, scn: &E::Scn, prop: &str) -> RunOutcome {
+  match catch(|| engine.run(scn, prop)) {
+    Ok(o) => o,
+    Err(p) => {
+      let mut o = RunOutcome::default();
+      if p.in_repo() {
+        o.violations.push(Violation::new(&[prop], "uncaught-panic", 0, format!("panic in repository code escaped the harness: {}", p.short())));
+      } else {
+        o.harness_error = Some(format!("harness panic: {}", p.short()));
+      }
+      o
+    }
+  }
+}
+
 /// Minimises `scn` while a violation of `prop` with oracle `oracle` persists.
 pub fn minimise<E: Engine>(engine: &E, scn: &E::Scn, prop: &str, oracle: &str, sig: &str, budget: usize) -> (E::Scn, usize) {
   let mut best = scn.clone();
@@ -214,7 +230,7 @@ pub fn minimise<E: Engine>(engine: &E, scn: &E::Scn, prop: &str, oracle: &str, s
     for cand in cands {
       if tried >= budget { break 'outer; }
       tried += 1;
-      let out = engine.run(&cand, prop);
+      let out = run_safely(engine, &cand, prop);
       if out.harness_error.is_some() { continue; }
       if out.violations.iter().any(|v| v.concerns(prop) && v.oracle == oracle && v.sig == sig) {
         best = cand;
@@ -248,7 +264,7 @@ pub fn run_check<E: Engine>(engine: &E, spec: &CheckSpec, tier: &str) -> i32 {
     let path = format!("{VERIF_DIR}/{}", k.replay);
     match std::fs::read_to_string(&path).ok().and_then(|t| serde_json::from_str::<ReplayFile<E::Scn>>(&t).ok()) {
       Some(rf) => {
-        let out = engine.run(&rf.scenario, prop);
+        let out = run_safely(engine, &rf.scenario, prop);
         if out.violations.iter().any(|v| v.concerns(prop) && v.sig == k.sig) {
           println!("KNOWN-FINDING: property={prop} {} [sig={} replay={}]", k.text, k.sig, k.replay);
           known_reproduced += 1;
@@ -275,7 +291,7 @@ pub fn run_check<E: Engine>(engine: &E, spec: &CheckSpec, tier: &str) -> i32 {
       let Ok(rf) = serde_json::from_str::<ReplayFile<E::Scn>>(&text) else { continue; };
       if rf.engine != engine.name() || rf.property != prop { continue; }
       regressions += 1;
-      let out = engine.run(&rf.scenario, prop);
+      let out = run_safely(engine, &rf.scenario, prop);
       if let Some(v) = out.violations.iter().find(|v| v.concerns(prop) && !known_sigs.contains(&v.sig)) {
         if regression_failed.is_none() { regression_failed = Some((f.display().to_string(), v.clone())); }
       }
@@ -312,18 +328,7 @@ pub fn run_check<E: Engine>(engine: &E, spec: &CheckSpec, tier: &str) -> i32 {
             let run_seed = mix(master, cstream, i);
             let mut rng = Rng::new(run_seed);
             let scn = engine.generate(&mut rng, config.name, prop);
-            let out = match catch(|| engine.run(&scn, prop)) {
-              Ok(o) => o,
-              Err(p) => {
-                let mut o = RunOutcome::default();
-                if p.in_repo() {
-                  o.violations.push(Violation::new(&[prop], "uncaught-panic", 0, format!("panic in repository code escaped the harness: {}", p.short())));
-                } else {
-                  o.harness_error = Some(format!("harness panic: {}", p.short()));
-                }
-                o
-              }
-            };
+            let out = run_safely(engine, &scn, prop);
             acc.runs += 1;
             acc.steps += out.steps;
             for v in out.violations.iter() { acc.stats.hit(&format!("oracle_fired:{}:{}", v.oracle, v.props.join("+"))); }
@@ -398,7 +403,7 @@ pub fn run_check<E: Engine>(engine: &E, spec: &CheckSpec, tier: &str) -> i32 {
   if exit == 0 {
     if let Some((config, index, run_seed, scn, v)) = &found {
       let (min_scn, tried) = minimise(engine, scn, prop, &v.oracle, &v.sig, 3000);
-      let min_out = engine.run(&min_scn, prop);
+      let min_out = run_safely(engine, &min_scn, prop);
       let min_v = min_out.violations.iter().find(|x| x.concerns(prop) && x.oracle == v.oracle && x.sig == v.sig).cloned().unwrap_or_else(|| v.clone());
       let dir = format!("{VERIF_DIR}/replays");
       let _ = std::fs::create_dir_all(&dir);
@@ -472,7 +477,7 @@ pub fn replay<E: Engine>(engine: &E, text: &str, path: &str) -> i32 {
     Ok(r) => r,
     Err(e) => { println!("HARNESS-ERROR cannot parse replay file {path}: {e}"); return 2; }
   };
-  let out = engine.run(&rf.scenario, &rf.property);
+  let out = run_safely(engine, &rf.scenario, &rf.property);
   if let Some(e) = out.harness_error { println!("HARNESS-ERROR replay {path}: {e}"); return 2; }
   match out.violations.iter().find(|v| v.concerns(&rf.property) && v.oracle == rf.oracle) {
     Some(v) => {
